@@ -86,6 +86,16 @@ def mir_sls(cfg):
     return q
 
 
+def mir_process_last_state(cfg):
+    import mirpaths
+    q = mirpaths.Query(cfg)
+    eff = cfg.find_calls(r'Peers::update_last_state')
+    q.witness(eff, 'update_last_state reachable')
+    q.gate(eff, r'check_verifiable_header$', 'result', 'a last state announced inside a reply replaces the peer\'s last state without check_verifiable_header having returned Ok (a header without valid PoW / chain-root commitment becomes the target of the next proof)',
+           after_err='the last state is replaced after check_verifiable_header failed')
+    return q
+
+
 def obligations():
     obs = slsp_obligations('O1') + [
         KModelOb('O1.2-continuity', 'slsp', 'continuous_q',
@@ -110,6 +120,9 @@ def obligations():
               'check_chain_root_for_headers, check_pow_for_headers, check_continuous_headers, verify_mmr_proof; no path continues from an '
               'Err edge (incl. verify_tau, verify_total_difficulty) to a mutator',
               r'send_last_state_proof\.rs:\d+:\d+: \d+:\d+>::execute\(', mir_slsp, src_rel=SLSP),
+        MirOb('O1.8-new-last-state-verified', 'LightClientProtocol::process_last_state (a NEW last state announced inside a proof / blocks-proof / transactions-proof reply): the peer\'s last state is '
+              'replaced only after check_verifiable_header (PoW, chain-root commitment, overflow guard) returned Ok - the proof handler itself never checks the PoW of the last header',
+              r'light_client/mod\.rs:\d+:\d+: \d+:\d+>::process_last_state\(', mir_process_last_state, src_rel=LCMOD),
         MirOb('O1.6-child-gates', 'SendLastStateProcess::execute: update_prove_state_to_child only after check_verifiable_header Ok, '
               'check_last_state Ok and ProveState::is_parent_of true',
               r'send_last_state\.rs:\d+:\d+: \d+:\d+>::execute\(', mir_sls, src_rel=SLS),
